@@ -800,7 +800,7 @@ def o_existing(case, T):
 
 
 def build(chk: Check) -> None:
-    chk.sub("roundtrip", o_roundtrip, strategy=s_roundtrip(), n={"quick": 560, "thorough": 16000},
+    chk.sub("roundtrip", o_roundtrip, strategy=s_roundtrip(), n={"quick": 560, "thorough": 12000},
             budget_s={"quick": 70, "thorough": 480}, shrink=False)
     chk.sub("supplied_overviews", o_layers, strategy=s_layers(), n={"quick": 240, "thorough": 7000},
             budget_s={"quick": 40, "thorough": 240}, shrink=False)
